@@ -7,7 +7,7 @@
 use super::bcfmt::{Const, Ins, Prog};
 use super::rng::Rng;
 
-const STRINGS: [&str; 24] = [
+const STRINGS: [&str; 28] = [
     "",
     "a",
     "λ:",
@@ -32,6 +32,10 @@ const STRINGS: [&str; 24] = [
     "tab\there",
     "~ ~\\n",
     " leading and trailing ",
+    "\u{1b}[31mred\u{1b}[0m",
+    "^[[31m",
+    "bell\u{7}nul\u{0}del\u{7f}",
+    "\\t\\n\\x1b",
 ];
 
 pub struct Opts {
@@ -53,7 +57,7 @@ fn random_string(rng: &mut Rng, o: &Opts) -> String {
                     1 => char::from_u32(0xa1 + rng.below(0x500) as u32).unwrap_or('¿'),
                     2 => char::from_u32(0x4e00 + rng.below(0x1000) as u32).unwrap_or('中'),
                     3 => char::from_u32(0x1f600 + rng.below(0x40) as u32).unwrap_or('😀'),
-                    4 => ['"', '#', ':', '~', '\\', '\'', '\t', ' '][rng.below(8)],
+                    4 => ['"', '#', ':', '~', '\\', '\'', '\t', ' ', '\u{1b}', '\u{0}', '\u{1}', '\u{7}', '\u{8}', '\u{b}', '\u{c}', '\u{7f}', '^', '[', '\u{85}', '\u{2028}'][rng.below(20)],
                     _ => char::from_u32(0x61 + rng.below(26) as u32).unwrap(),
                 };
                 s.push(c);
